@@ -899,7 +899,8 @@ pub fn confirm_healthy(env: &Env, cal: &CalWindow, bound: Duration) -> (bool, u3
 
 pub fn run_conv(env: &Env, case: &ConvCase) -> ConvObs {
     let t0 = Instant::now();
-    let bound = Duration::from_millis(case.bound_ms);
+    // sanitizer builds run several times slower: their workers get proportionally longer bounds
+    let bound = Duration::from_millis(case.bound_ms * crate::util::time_scale());
     let mut obs = ConvObs {
         delivered: Vec::new(),
         msgs: Vec::new(),
